@@ -51,7 +51,7 @@ def split_spans(spans, sep_kind, sep_text=None):
     return out
 
 
-def judge(part, probe, reg, query, expect_val=None, tag=""):
+def judge(part, probe, reg, query, expect_val=None, tag="", base=10):
     """expect_val: R.Val of the left-hand side when the reference knows it (conversions)."""
     part.evaluations += 1
     r = probe.eval(query, timeout=30, json=False)
@@ -93,8 +93,8 @@ def judge(part, probe, reg, query, expect_val=None, tag=""):
             if any(k in ("°C", "°F", "°Ré", "°Rø", "°De", "°N") for k in (np_.get("raw_unit") or {})):
                 part.count("temperature_scale_skipped")
                 return
-            ok = report(part, P.check_parts(np_, reg, quantity=expect_val.v, qdims=expect_val.d), wit, "conversion.parts")
-            pr, rd = P.check_spans(spans, reg, expect_val.v, expect_val.d)
+            ok = report(part, P.check_parts(np_, reg, quantity=expect_val.v, qdims=expect_val.d, base=base), wit, "conversion.parts")
+            pr, rd = P.check_spans(spans, reg, expect_val.v, expect_val.d, base=base)
             ok &= report(part, pr, wit, "conversion.spans")
             rdm = np_.get("raw_dimensions")
             if rdm is not None and dims_key(rdm) != dims_key(expect_val.d):
@@ -103,6 +103,7 @@ def judge(part, probe, reg, query, expect_val=None, tag=""):
             ok &= report(part, P.check_dimension_text(np_, reg), wit, "conversion.dimensions")
             if ok:
                 part.count("conversion_ok")
+                part.count("ok:" + tag)
                 part.seen("conv|%s|%s|%s|%s" % (np_.get("unit"), np_.get("factor"), np_.get("divfactor"),
                                                 "approx" if np_.get("approx") else "exact"))
                 part.sample({"query": query[:120], "shown": (r.get("text") or "")[:120]})
@@ -307,6 +308,36 @@ def work_random(idx, _chunk, seed, n):
                 part.count("reference_abstains")
                 continue
             judge(part, probe, reg, "%s -> %s" % (src, tgt), lv, "conversion:" + form)
+        elif r < 0.87:
+            # number-format conversions of values with units: the numeral (in the requested base / format) must be that of
+            # the value in the unit that is printed next to it
+            if rng.random() < 0.5:
+                u = rng.choice(["m", "g", "kg", "byte", "bit", "s", "W", "J", "Hz", "N", "m^2", "m^3", "kg^2", "A", "K", "mol", "liter", "Pa"])
+                c = Fraction(rng.choice([1, 5, 255, 4096, 5000, 65535, 10 ** 6, 123456789, rng.randrange(1, 10 ** 9)])) * \
+                    Fraction(10) ** rng.choice([-9, -6, -3, -2, 0, 0, 0, 3, 4, 6, 9, 12])
+                if rng.random() < 0.3:
+                    c = c / rng.choice([3, 7, 8, 16, 1000, 1024])
+                src = "%s %s" % (lit(c), u)
+            else:
+                k = rng.choice(ckeys)
+                a = rng.choice(classes[k])
+                c = Fraction(rng.randrange(1, 10 ** 6), rng.choice([1, 1, 2, 8, 10, 16, 1000, rng.randrange(1, 10 ** 3)]))
+                src = "%s %s" % (lit(c), render_name(a))
+            if rng.random() < 0.2:
+                src = "-" + src
+            bs = rng.choice([2, 3, 8, 10, 12, 16, 16, 20, 36])
+            fmt = rng.choice(["", "", "digits %d " % rng.randrange(1, 40), "digits ", "sci ", "eng ", "frac "])
+            if bs == 10:
+                tgt = (fmt.strip() or "digits 15")
+            else:
+                tgt = fmt + rng.choice(["base %d" % bs] + ({16: ["hex", "hexadecimal"], 8: ["oct", "octal"], 2: ["bin", "binary"]}.get(bs, [])))
+            try:
+                lv = R.evaluate(R.parse(src), env)
+            except (R.OutOfScope, R.Undefined, R.DimErr, R.SyntaxErr):
+                part.count("reference_abstains")
+                continue
+            # fraction-form numerals are decimal whatever base was requested (same reading as C05)
+            judge(part, probe, reg, "%s -> %s" % (src, tgt), lv, "conversion:numberformat", base=10 if fmt == "frac " else bs)
         else:
             # unit lists and durations
             k = rng.choice(ckeys)
